@@ -60,9 +60,11 @@ class C19(common.SpecCheck):
     def gen(self, rng, k):
         for _ in range(20):
             spec, meta = classes.gen_mixed(rng, [("S", 4), ("O", 3), ("K", 3), ("P", 1), ("A", 2)])
-            if meta.get("omode") == "flatten":
-                continue
+            if any(key.startswith("(") for p_ in (spec.get("partitioning") or {}).values() for key in p_):
+                continue     # flattening: outside the stated default (see assumptions)
             break
+        else:
+            return None
         # make sure something is omitted: drop sections at random
         if spec.get("loop_order") and rng.random() < 0.6:
             for o in list(spec["loop_order"]):
